@@ -232,15 +232,46 @@ def value_at(block: Sequence[ast.stmt], use_stmt: ast.stmt, expr, seeds=()) -> O
                 return _copy.deepcopy(env[n.id])
             return n
 
+    def leaves(stmts_) -> bool:
+        if not stmts_:
+            return False
+        l_ = stmts_[-1]
+        if isinstance(l_, (ast.Return, ast.Raise, ast.Continue, ast.Break)):
+            return True
+        return isinstance(l_, ast.If) and leaves(l_.body) and leaves(l_.orelse)
+
     def assigned_names(s_) -> set:
+        if isinstance(s_, ast.If):
+            # a branch that always jumps away leaves nothing behind for the statements after the `if`
+            out_ = {x.id for x in ast.walk(s_.test) if isinstance(x, ast.Name) and isinstance(x.ctx, ast.Store)}
+            for br_ in (s_.body, s_.orelse):
+                if not leaves(br_):
+                    for t_ in br_:
+                        out_ |= assigned_names(t_)
+            return out_
         return {x.id for x in ast.walk(s_) if isinstance(x, ast.Name) and isinstance(x.ctx, ast.Store)}
+
+    def invalidate(names_) -> None:
+        # a definition recorded earlier that reads a name bound again now no longer describes its current value
+        for k_ in list(env):
+            if k_ not in names_ and any(isinstance(x, ast.Name) and x.id in names_ for x in ast.walk(env[k_])):
+                env[k_] = ast.Name(id=f"?{k_}", ctx=ast.Load())
 
     def walk_block(stmts) -> Optional[bool]:
         for s_ in stmts:
+            if not (s_ is use_stmt or contains(s_, use_stmt)):
+                invalidate(assigned_names(s_))
             if s_ is use_stmt or contains(s_, use_stmt):
                 if s_ is use_stmt:
                     return True
                 # descend along the path
+                if isinstance(s_, (ast.For, ast.AsyncFor, ast.While)):
+                    # what the loop binds has no single reaching definition at the top of its body: a definition from before
+                    # the loop is forgotten
+                    bound_ = assigned_names(s_)
+                    invalidate(bound_)
+                    for nm in bound_:
+                        env.pop(nm, None)  # the name stands for its value in the current iteration
                 for fld in ("body", "orelse", "finalbody"):
                     sub = getattr(s_, fld, None)
                     if isinstance(sub, list) and any(x is use_stmt or contains(x, use_stmt) for x in sub):
@@ -248,6 +279,18 @@ def value_at(block: Sequence[ast.stmt], use_stmt: ast.stmt, expr, seeds=()) -> O
                 return True
             if isinstance(s_, ast.Assign) and len(s_.targets) == 1 and isinstance(s_.targets[0], ast.Name):
                 env[s_.targets[0].id] = Sub().visit(_copy.deepcopy(s_.value))
+            elif (
+                isinstance(s_, ast.Assign)
+                and len(s_.targets) == 1
+                and isinstance(s_.targets[0], ast.Tuple)
+                and isinstance(s_.value, ast.Tuple)
+                and len(s_.targets[0].elts) == len(s_.value.elts)
+                and all(isinstance(t_, ast.Name) for t_ in s_.targets[0].elts)
+            ):
+                # parallel assignment: every right-hand side is read before any name is bound
+                vals = [Sub().visit(_copy.deepcopy(v_)) for v_ in s_.value.elts]
+                for t_, v_ in zip(s_.targets[0].elts, vals):
+                    env[t_.id] = v_
             else:
                 # anything else that assigns a name makes that name unknown
                 for nm in assigned_names(s_):
